@@ -395,7 +395,7 @@ pub fn generate(rng: &mut Rng, tier: Tier, long_uptime: bool) -> Scenario {
     let mode = if !kind.has_scalar() {
         *rng.pick(&[Mode::Bar, Mode::Item])
     } else {
-        *rng.pick(&[Mode::Scalar, Mode::Bar, Mode::Item])
+        *rng.pick(&[Mode::Scalar, Mode::Bar, Mode::Item, Mode::Mixed])
     };
     let spec = NodeSpec { kind, params: Params::new(n, 1, 1, 2.0), mode, dflt: false };
     let need = need(kind, n) as usize;
